@@ -21,6 +21,24 @@ LEVEL = {
             "matcher sound+complete w.r.t. the declarative Fits, leftmost start in range, one-turn bound, group text = "
             "matched text for every span; SEARCH/LM correspondence against Python re + oracle.", "§7 C16"),
 }
+LEVEL.update({
+    "C01": ("Lean theorems: whenever a product is returned its sequence is exactly the chain's retained fragments in "
+            "chain order followed by the vector's (length = sum), the chain being the linked path of the overhang "
+            "graph; the live structure() of generic/part classes over every supported enzyme equals the model's closed "
+            "forms (kernel-checked regenerated table). ASM/STRUCT correspondence + documented-formula oracle.", "§7 C01"),
+    "C03": ("Lean theorems on the overhang-graph model, generic in the overhang type: success iff vector overhangs "
+            "differ, no shared / reverse-complementary start overhang and a simple chain to the upstream overhang "
+            "(sound + complete), error classes with precedence and stall overhang, each module used once, leftover = "
+            "supplied minus chain, invariance under permutation of the arguments. GRAPH/ASM correspondence exhaustive on "
+            "small multisets + independent graph oracle.", "§7 C03"),
+    "C06": ("Lean theorems: cache invariant and history independence of the pattern a class is matched with, for any "
+            "hierarchy and any history; counterexample theorem for the inherited-cache variant. HIST correspondence "
+            "in forked fresh interpreters.", "§7 C06"),
+    "C20": ("Lean theorems: mapping laws of association lists, CombinedRegistry = first-wins union (keys once, union, "
+            "lookup = first member holding the key); the five embedded registries exhaustively via a kernel-checked "
+            "regenerated table. PARTIAL: archive / directory I/O decided by the oracle on real archives and mem:// "
+            "directories.", "§7 C20"),
+})
 NOTE = ("Trusted: Lean 4.33 kernel (+ propext, Classical.choice, Quot.sound), the hand-written model as far as the "
         "regenerated tables and the correspondence check show on each run, harness/extract.py, harness/impl.py, "
         "Model/Wire.lean, Biopython 1.88 / CPython 3.12 semantics of re, SeqRecord, locations. See DESIGN.md §9.")
